@@ -82,6 +82,13 @@ impl ZoneMapEntry {
         // Check min/max bounds
         match (&self.min, &self.max) {
             (Some(min), Some(max)) => {
+                // The filter operators compare floating-point values with a tolerance
+                // (|a - b| < f64::EPSILON), so a value just outside [min, max] can still
+                // match a stored value: widen the bounds accordingly before pruning.
+                if let Some(within) = float_equal_within_bounds(value, min, max) {
+                    return within;
+                }
+
                 let cmp_min = compare_values(value, min);
                 let cmp_max = compare_values(value, max);
 
@@ -569,6 +576,34 @@ fn value_hash(value: &Value) -> u64 {
     }
 
     hasher.finish()
+}
+
+/// For an equality probe that involves a floating-point number, says whether `value` can be
+/// equal - under the filter operators' tolerance of `f64::EPSILON` - to something in `[min, max]`.
+///
+/// Returns `None` when no float is involved or the operands are not numeric (the exact
+/// comparison applies), and `Some(true)` whenever a NaN makes the bounds meaningless.
+fn float_equal_within_bounds(value: &Value, min: &Value, max: &Value) -> Option<bool> {
+    fn as_f64(v: &Value) -> Option<f64> {
+        match v {
+            Value::Float64(f) => Some(*f),
+            Value::Int64(i) => Some(*i as f64),
+            _ => None,
+        }
+    }
+    if !matches!(value, Value::Float64(_))
+        && !matches!(min, Value::Float64(_))
+        && !matches!(max, Value::Float64(_))
+    {
+        return None;
+    }
+    let (v, lo, hi) = (as_f64(value)?, as_f64(min)?, as_f64(max)?);
+    if v.is_nan() || lo.is_nan() || hi.is_nan() {
+        return Some(true);
+    }
+    // Twice the tolerance absorbs the rounding of the two additions below.
+    let slack = 2.0 * f64::EPSILON;
+    Some(v + slack >= lo && v - slack <= hi)
 }
 
 /// Compares two values.
